@@ -38,7 +38,7 @@ FLOORS = {
               "debug-parser-runs": 40000},
     "thorough": {"exact-position-checks": 500000, "suffix-groups": 500000,
                  "crlf-cases": 100000, "multibyte-before-x": 100000,
-                 "mut-position-checks": 50000},
+                 "mut-position-checks": 50000, "debug-parser-runs": 500000},
 }
 SHARD_TIMEOUT = {"quick": 600, "thorough": 3000}
 
